@@ -90,7 +90,7 @@ class Env:
         d_exp: Dict[Symbol, Boolean] = {}
         n_exps = []
         for s, e in deff[3]:
-            new_e = e.subs(d_exp)
+            new_e = e.xreplace(d_exp)
             d_exp[s] = new_e
             n_exps.append((s, new_e))
 
